@@ -243,7 +243,8 @@ func (evidWorld) Exec(prop string, t *Trace) *Result {
 		}
 	}
 	if live[0] == nil {
-		res.Fatal = "initial claims not buildable"
+		// the library refuses to materialise the description (it decides what can be built): nothing to drive
+		res.Probes["initial_claims_unbuildable"]++
 		return res
 	}
 	led := ledger{}
